@@ -94,21 +94,11 @@ def main(ctx, cases=None):
                          "classes_LA_LB": len({(r.case["A"]["l"], r.case["B"]["l"]) for r in runs}), "traces_validated_against_impl": len(runs)})
     out = []
     if fails:
-        sws = tuple(dict.fromkeys(sw for _, sw in ATTRIBUTION))
-        flat = [x for f in fails[:40] for x in (f[0], f[1])]
-        if proofs_ok and not corr_bad:      # counterfactuals are only usable when model and code agree
-            pl.run_model(flat, sws)
-        for r, s, d, tol in fails:
-            fid, table = None, {}
-            for f_id, sw in ATTRIBUTION:
-                a, bb = r.model.get(sw), s.model.get(sw)
-                if a is None or bb is None:
-                    continue
-                table[sw] = asym([pl.unhex(x) for x in a], [pl.unhex(x) for x in bb], r.nA, r.nB)
-            for f_id, sw in ATTRIBUTION:
-                if sw in table and table[sw] <= tol and proofs_ok and not corr_bad:
-                    fid = f_id      # (never attributed when model and code disagree: the model's counterfactuals then say nothing about the code)
-                    break
+        items = [{"runs": (r, s), "tol": tol, "defect": (lambda nA, nB: (lambda blocks: asym(blocks[0], blocks[1], nA, nB)))(r.nA, r.nB), "r": r, "s": s, "d": d}
+                 for r, s, d, tol in fails]
+        pl.lazy_attribute(items, ATTRIBUTION, usable=bool(proofs_ok and not corr_bad))
+        for it in items:
+            r, s, d, tol, fid, table = it["r"], it["s"], it["d"], it["tol"], it["fid"], it["table"]
             if fid is None and proofs_ok and not corr_bad and (r.warn[0] > 0 or s.warn[0] > 0):
                 fid = "type1-quadrature-unconverged"   # the library itself reported a type-1 quadrature that did not converge
             out.append({"case": r.case, "request": pl.fmt_case(r.case), "error": d, "allowed": tol, "attributed_to": fid, "counterfactual_asymmetry": table,
